@@ -6,9 +6,13 @@
        process_one_subset attrs labels fuel nodes p = eval (render_nodes ...) p
      (evaluation over the nested JSON rendering; one envelope per replication,
       one list per repetition, matches in document order).
-   Proved below: the subset selector, document order of every selection, no
-   node lost or invented by the ordering, and that only value nodes yield values. *)
-From PBK Require Import Base Descr Walk Wire PySlice PathParser Query QueryProofs.
+   Proved below: the subset selector; what ONE STEP selects, for every node list
+   and every component (the nodes whose label is the component's id, cut by the
+   Python slice, in document order; the early return of the integer case changes
+   nothing; composites merged in on a descendant step); document order of every
+   selection; and that only value nodes yield values.  What is not proved is the
+   composition of the steps over the tree (envelopes per replication). *)
+From PBK Require Import Base Descr Walk Wire PySlice PathParser Query QueryProofs QuerySpec.
 
 Theorem C16_subset_selector_none : forall n cs,
   subset_indices n (mkPath None cs) = Ok (map Z.of_nat (seq 0 n)).
@@ -39,3 +43,53 @@ Theorem C16_values_only_from_value_nodes : forall fuel n,
   (forall i, n <> QV i) -> values_of (S fuel) (RNode n) = Err EQuery.
 Proof. exact values_of_valueless. Qed.
 Print Assumptions C16_values_only_from_value_nodes.
+
+(* ---- one step of the query ---------------------------------------------------------- *)
+(* [k] on a child / attribute step: the k-th node (0-based) whose label is the id, or
+   nothing; the implementation's early return does not change the result *)
+Theorem C16_step_int : forall attrs labels c k nodes,
+  c_slice c = SInt k -> (0 <= k)%Z -> (c_sep c =? SEP_DESCEND)%N = false ->
+  filter_for_entities attrs labels nodes c =
+  Ok (match nth_error (matched_of attrs labels c nodes) (Z.to_nat k) with Some x => [x] | None => [] end).
+Proof. exact ffe_int. Qed.
+Print Assumptions C16_step_int.
+
+(* [a:b:c] on any step: Python's slice of the matches, then (descendant step) the
+   composite nodes to descend into, sorted by position *)
+Theorem C16_step_slice : forall attrs labels c a b st nodes,
+  c_slice c = SSlice a b st ->
+  filter_for_entities attrs labels nodes c =
+  (let* sel := py_slice (matched_of attrs labels c nodes) a b st in
+   Ok (sort_by_idx (sel ++ kept_of attrs labels c nodes))).
+Proof. exact ffe_slice. Qed.
+Print Assumptions C16_step_slice.
+
+(* ... which is the node list itself filtered by "was selected": selected matches are
+   kept in DOCUMENT order whatever the direction of the slice *)
+Theorem C16_step_slice_document_order : forall attrs labels c a b st nodes sel,
+  c_slice c = SSlice a b st -> py_slice (matched_of attrs labels c nodes) a b st = Ok sel ->
+  filter_for_entities attrs labels nodes c =
+  Ok (filter (fun x => existsb (fun y => (fst y =? fst x)%nat) (sel ++ kept_of attrs labels c nodes)) (enumerate 0 nodes)).
+Proof. exact ffe_slice_document_order. Qed.
+Print Assumptions C16_step_slice_document_order.
+
+Theorem C16_step_slice_child : forall attrs labels c a b st nodes sel,
+  c_slice c = SSlice a b st -> (c_sep c =? SEP_DESCEND)%N = false ->
+  py_slice (matched_of attrs labels c nodes) a b st = Ok sel ->
+  filter_for_entities attrs labels nodes c =
+  Ok (filter (fun x => existsb (fun y => (fst y =? fst x)%nat) sel) (enumerate 0 nodes)).
+Proof. exact ffe_slice_child. Qed.
+Print Assumptions C16_step_slice_child.
+
+(* a Python slice picks distinct positions of its argument *)
+Theorem C16_slice_picks : forall (l sel : list (nat * qn)) a b c,
+  py_slice l a b c = Ok sel -> incl sel l /\ (NoDup (map fst l) -> NoDup (map fst sel)).
+Proof. exact py_slice_picks. Qed.
+Print Assumptions C16_slice_picks.
+
+(* sorting a selection by position = reading the document and keeping the selected *)
+Theorem C16_sort_is_document_filter : forall (E l : list (nat * qn)),
+  ssorted E -> incl l E -> NoDup (map fst l) ->
+  sort_by_idx l = filter (fun x => existsb (fun y => (fst y =? fst x)%nat) l) E.
+Proof. exact sort_is_document_filter. Qed.
+Print Assumptions C16_sort_is_document_filter.
